@@ -366,6 +366,20 @@ let c16 s b =
   | Err c -> Printf.bprintf b "node err %d" (int_of_nat c)
   | Ok (ctx, node) -> Printf.bprintf b "node %d | arena " (int_of_nat node); buf_arena b ctx
 
+(* ---- C19: the solver's seed table --------------------------------------------------- *)
+let c19 s b =
+  let nfree = next s in
+  let k = next s in
+  let gis = times k (fun () -> next s) in
+  Printf.bprintf b "nfree %d | seeds" nfree;
+  let ns = int_of_nat (samples (nat_of_int nfree)) in
+  List.iter (fun gi ->
+    Printf.bprintf b " ; %d:" gi;
+    for j = 0 to ns - 1 do
+      let ((x, y), z) = seed (nat_of_int gi) (nat_of_int j) in
+      Printf.bprintf b " %d%d%d" (if x then 1 else 0) (if y then 1 else 0) (if z then 1 else 0)
+    done) gis
+
 (* ---- C11: interpreter interval evaluation: value or panic ---------------------- *)
 let c11 s b =
   let arena = parse_arena s in
@@ -458,6 +472,7 @@ let dispatch cmd s b =
   | "c12" -> c12 s b
   | "c13" -> c13 s b
   | "c16" -> c16 s b
+  | "c19" -> c19 s b
   | "bcval" -> cmd_bcval s b
   | "c20" -> c20 s b
   | "c04" -> c04 s b
